@@ -5,10 +5,12 @@ c=d['case']
 df=c['definition']
 for t in df['tasks'].values(): t.pop('input', None)
 print(yaml.safe_dump(df, sort_keys=False))
+def show(name, ops):
+    print(name)
+    for o in ops: print('  ', json.dumps(o))
 for k in c:
-    if k.startswith('ops'):
-        if isinstance(c[k], list):
-            print(k)
-            for o in c[k]: print('  ', json.dumps(o))
-        else: print(k, c[k])
+    if k.startswith('ops') and isinstance(c[k], list): show(k, c[k])
+    elif k.startswith('ops'): print(k, c[k])
+    if k == 'runs':
+        for i, ops in enumerate(c[k]): show('run %d' % i, ops)
 print(c.get('world_opts'), c['ast'].get('inputs'))
